@@ -10,6 +10,7 @@ import MinizProof.Gen.All
 import MinizProof.Spec.Inflate
 import MinizProof.Lemmas.Finite
 import MinizProof.Lemmas.GenArith
+import MinizProof.Lemmas.CoreZlib
 set_option maxRecDepth 1000000
 open Fin'
 
@@ -108,5 +109,32 @@ example : Spec.zlibHeaderValid 0x78 0x9C = true := by decide +kernel
 example : accepts 0x78 0x9C 0 32767 = true := by decide +kernel
 example : accepts 0x78 0x9C 0 16383 = false := by decide +kernel
 example : declaredWindow 0x78 = 32768 := by decide +kernel
+
+/-! ### Decode side, over the decoder model (`Model.Core.decompress`, ICALL correspondence) -/
+open Model.Core in
+/-- COMPLETION ONLY WITH A MATCHING TRAILER. For every input whose zlib header is valid and whose
+    DEFLATE body the RFC reference decoder accepts (flat buffer with room, decoder at Start): the
+    call reports `Done` iff the four trailer bytes are the big-endian Adler-32 of exactly the bytes
+    produced — any other trailer yields `Adler32Mismatch` — unless the caller set the ignore flag, in
+    which case no comparison is made. Counts and bytes are the specification's in all three cases. -/
+theorem zlib_trailer_is_verified (r : Regs) (inp out : Array UInt8) (outPos budget flags maxDist : Nat)
+    (res : Spec.Inflated) (cmf flg a b c d : UInt8) (hstart : r.state = sStart)
+    (hshape : r.rawHeader.size = 4 ∧ r.tableSizes.size = 3 ∧ r.lenCodes.size = 512)
+    (hflat : hasFlag flags fNonWrapping = true) (hz : hasFlag flags fParseZlib = true)
+    (hstop : hasFlag flags fStopOnBlockBoundary = false) (hpos : outPos ≤ out.size)
+    (h0 : inp[0]? = some cmf) (h1 : inp[1]? = some flg) (hv : Spec.zlibHeaderValid cmf.toNat flg.toNat = true)
+    (hspec : Spec.inflateSpec (out.extract 0 outPos) maxDist inp 16 = .accept res)
+    (ha : inp[(res.bitsUsed + 7) / 8]? = some a) (hb : inp[(res.bitsUsed + 7) / 8 + 1]? = some b)
+    (hc : inp[(res.bitsUsed + 7) / 8 + 2]? = some c) (hd : inp[(res.bitsUsed + 7) / 8 + 3]? = some d)
+    (hroom : outPos + res.out.size ≤ min (outPos + budget) out.size) :
+    (decompress r inp out outPos budget flags).status =
+      (if hasFlag flags fIgnoreAdler = false ∧
+          Spec.adler32 1 res.out.toList ≠ ((a.toNat * 256 + b.toNat) * 256 + c.toNat) * 256 + d.toNat
+       then stAdler32Mismatch else stDone) ∧
+    (decompress r inp out outPos budget flags).written = res.out.size ∧
+    (decompress r inp out outPos budget flags).consumed = (res.bitsUsed + 7) / 8 + 4 :=
+  let h := refine_zlib_flat r inp out outPos budget flags maxDist res cmf flg a b c d hstart hshape hflat hz hstop
+    hpos h0 h1 hv hspec ha hb hc hd hroom
+  ⟨h.1, h.2.1, h.2.2.1⟩
 
 end C09
